@@ -108,6 +108,13 @@ def aad_layout(t, g, r, need):
             mm = re.search(r"'repeat', \('const', 0, '0_u8'\), (\d+)\)", fmt(pl))
             if mm: n = int(mm.group(1))
             if k is None: r.bad(f"{g.path}|idx", s_, "AAD byte written at a non-constant index"); continue
+            # an element of a sub-slice (`let (_, last) = rest.split_at_mut(8); last[0] = prefix`): the index is relative to where the sub-slice starts
+            if nd["place"]["proj"][0]["k"] == "deref":
+                from rules.noncebytes import Ev
+                tg = Ev(t, g).ref_target({"k": "copy", "place": {"local": nd["place"]["local"], "proj": []}})
+                if tg is None: r.bad(f"{g.path}|idx-base", s_, "AAD byte written through a reference that cannot be resolved to a position in the buffer"); continue
+                if n is None: n = Ev(t, g).array_len(tg[0])
+                k += tg[1]
             parts.append((k, k + 1, fmt(t.stored(s_)), s_))
     parts.sort(key=lambda p_: (p_[0], p_[1]))
     for p_ in parts: r.site(p_[3], f"[{p_[0]}..{p_[1]}) <- {p_[2][-40:]}")
@@ -164,6 +171,15 @@ def slots_match_limit(t, rid):
         lim = t.stored(s)
         rz = [c for c in t.calls(r"Vec.*::resize$|::resize$", f) if t.mentions_field(t.arg(c, 0), "clients")]
         st = list(t.stores(NS, "clients", f))
+        # growth by appending exactly the missing slots: `clients.extend(repeat_with(|| None).take(limit.saturating_sub(clients.len())))`
+        grown = False
+        for c in t.calls(r"::extend$|::resize_with$", f):
+            if not t.mentions_field(t.arg(c, 0), "clients") and "clients" not in fmt(t.arg(c, 0)): continue
+            a_ = fmt(t.arg(c, 1))
+            lim_t = fmt(strip(lim))
+            if re.search(r"(saturating_sub|SubWithOverflow|checked_sub)", a_) and lim_t in a_ and "::len(" in a_: grown = True; r.site(c, "extend by the missing slots")
+            elif method_of(callee_name(c.node)) == "resize_with" and same(t.arg(c, 1), lim): grown = True; r.site(c, "resize_with")
+        if grown: continue
         if not rz or not st: r.bad(f"{f.path}|no-resize", s, "max_clients can be raised above the number of client slots: later handshakes are denied although the limit allows them"); continue
         for c in rz:
             r.site(c, "resize")
